@@ -43,6 +43,9 @@ Proofs/RespFacts.vos Proofs/RespFacts.vok Proofs/RespFacts.required_vos: Proofs/
 Proofs/StreamFacts.vo Proofs/StreamFacts.glob Proofs/StreamFacts.v.beautified Proofs/StreamFacts.required_vo: Proofs/StreamFacts.v Base/Bytes.vo Model/Resp.vo Model/Types.vo Model/Strings.vo Model/Streams.vo Proofs/BytesFacts.vo
 Proofs/StreamFacts.vio: Proofs/StreamFacts.v Base/Bytes.vio Model/Resp.vio Model/Types.vio Model/Strings.vio Model/Streams.vio Proofs/BytesFacts.vio
 Proofs/StreamFacts.vos Proofs/StreamFacts.vok Proofs/StreamFacts.required_vos: Proofs/StreamFacts.v Base/Bytes.vos Model/Resp.vos Model/Types.vos Model/Strings.vos Model/Streams.vos Proofs/BytesFacts.vos
+Proofs/GroupFacts.vo Proofs/GroupFacts.glob Proofs/GroupFacts.v.beautified Proofs/GroupFacts.required_vo: Proofs/GroupFacts.v Base/Bytes.vo Model/Resp.vo Model/Types.vo Model/Strings.vo Model/Streams.vo Proofs/BytesFacts.vo Proofs/StreamFacts.vo
+Proofs/GroupFacts.vio: Proofs/GroupFacts.v Base/Bytes.vio Model/Resp.vio Model/Types.vio Model/Strings.vio Model/Streams.vio Proofs/BytesFacts.vio Proofs/StreamFacts.vio
+Proofs/GroupFacts.vos Proofs/GroupFacts.vok Proofs/GroupFacts.required_vos: Proofs/GroupFacts.v Base/Bytes.vos Model/Resp.vos Model/Types.vos Model/Strings.vos Model/Streams.vos Proofs/BytesFacts.vos Proofs/StreamFacts.vos
 Props/C20.vo Props/C20.glob Props/C20.v.beautified Props/C20.required_vo: Props/C20.v Base/Bytes.vo Model/Resp.vo Proofs/BytesFacts.vo Proofs/RespFacts.vo
 Props/C20.vio: Props/C20.v Base/Bytes.vio Model/Resp.vio Proofs/BytesFacts.vio Proofs/RespFacts.vio
 Props/C20.vos Props/C20.vok Props/C20.required_vos: Props/C20.v Base/Bytes.vos Model/Resp.vos Proofs/BytesFacts.vos Proofs/RespFacts.vos
